@@ -209,8 +209,11 @@ def make_pair(cfg, e1, e2, w):
                 temps.append(t)
     bid = _ident(f"seq_{e1['name']}_then_{e2['name']}_n{n}")
     calls = [e1['seq'].format_map(_Keep({'n': n})), e2['seq'].format_map(_Keep({'n': n}))]
+    full = 1 << (_bits(kind) * n)
+    # the third shared variable (res of mul/min/max/add_mul) starts from one garbage value: keeps the pair at full*full cases
+    dom = [(0, full) if nm != 'z' else ((0xB & (full - 1)), (0xB & (full - 1)) + 1) for nm in used]
     return Block(bid=bid, title=f"{e1['name']} ; {e2['name']}  (n={n}, shared variables)", macro=f"{e1['name']};{e2['name']}",
-                 calls=calls, vars=vars_, exits=0, spec=spec, dom=[(0, 1 << (_bits(kind) * n))] * len(used), temps=temps,
+                 calls=calls, vars=vars_, exits=0, spec=spec, dom=dom, temps=temps,
                  params={'n': n}, kind='pair', w=w)
 
 
@@ -240,6 +243,12 @@ def plan_blocks(ctx, cfg):
             for w in (p.get('w') or widths):
                 if w in widths:
                     thm.append(make_block(e, p, w))
+        for p in e['inst'].get('deep', []):
+            if tier == 'thorough':
+                if os.environ.get('FJVERIF_STL_DEEP') == '1':
+                    thm.append(make_block(e, p, widths[0]))
+                else:
+                    smp.append(make_block(e, p, widths[0], kind='deep-sample'))
         for p in e['inst']['sample']:
             smp.append(make_block(e, p, widths[0], kind='sample'))
     seqs = [e for e in cfg.table if e['seq']]
@@ -247,8 +256,11 @@ def plan_blocks(ctx, cfg):
     if tier == 'quick':
         pairs = ctx.rng.sample(pairs, min(cfg.seq_pairs_quick, len(pairs)))
     for a, b in pairs:
-        for w in (widths if tier == 'thorough' else widths[:1]):
-            thm.append(make_pair(cfg, a, b, w))
+        thm.append(make_pair(cfg, a, b, widths[0]))
+    if tier == 'thorough':
+        for w in widths[1:]:
+            for a, b in ctx.rng.sample(pairs, max(1, len(pairs) // 10)):
+                thm.append(make_pair(cfg, a, b, w))
     return thm, smp, [e['name'] for e in boosted]
 
 
@@ -348,7 +360,7 @@ def assemble_blocks(ctx, cfg, blocks, tag):
             for w in ws]
     singles = {}
     for b in blocks:
-        if b.kind != 'pair':
+        if b.kind != 'pair' and (b.w == ws[-1] or b.w == 16):      # sizes are measured at the largest width (and at 16: tight space)
             key = (b.bid, b.w)
             singles[key] = b
             jobs.append({'name': f'{tag}_one_{b.bid}_w{b.w}', 'fj': program_text(cfg, [b]), 'w': b.w, 'dir': d,
@@ -368,11 +380,17 @@ def assemble_blocks(ctx, cfg, blocks, tag):
             b.asm_error = r.get('error', '?')
         else:
             b.words = r['nwords'] - base[w]
-            size_of_macro.setdefault((b.macro, w), b.words)
+            size_of_macro.setdefault(b.macro, b.words)
+    size_of_bid = {bid: b.words for (bid, w), b in singles.items() if w == ws[-1]}
     for b in blocks:
         if b.kind == 'pair':
             m1, m2 = b.macro.split(';')
-            b.words = 40 + sum(size_of_macro.get((m, b.w), 400) for m in (m1, m2))
+            b.words = 40 + sum(size_of_macro.get(m, 400) for m in (m1, m2))
+        elif (b.bid, b.w) not in singles:
+            b.words = size_of_bid.get(b.bid, 2000)
+            twin = singles.get((b.bid, ws[-1]))
+            if twin is not None and twin.asm_error:
+                b.asm_error = twin.asm_error
     # packing
     images = []
     for w in ws:
@@ -786,26 +804,31 @@ def run_property(ctx, cfg):
 
     # ---- blocks and images
     thm_blocks, smp_blocks, boosted = plan_blocks(ctx, cfg)
-    images = assemble_blocks(ctx, cfg, thm_blocks, prop)
-    smp_images = assemble_blocks(ctx, cfg, smp_blocks, prop + 's')
+    try:
+        images = assemble_blocks(ctx, cfg, thm_blocks, prop)
+        smp_images = assemble_blocks(ctx, cfg, smp_blocks, prop + 's')
+    except RuntimeError as e:
+        # not even `<startup> ; stl.loop` assembles: nothing can be regenerated, every instance theorem is void
+        ctx.broken_tie(f'{prop}: the harness start-up program does not assemble with the current assembler/stl', str(e))
+        cov['obligations'] += len(thm_blocks)
+        return
     for b in thm_blocks + smp_blocks:
         if b.asm_error:
             ctx.broken_tie(f'assembly of harness block {b.title} (w={b.w})', b.asm_error)
-    if cfg.widths[ctx.tier] and any(b.w == 16 and b.asm_error for b in thm_blocks):
-        pass
     t_asm = time.time()
 
     # ---- real engines on sampled operands (tests; also measures op counts)
-    nsm = ctx.n(6, 16)
+    nsamp = {'single': ctx.n(6, 10), 'pair': ctx.n(4, 4), 'sample': ctx.n(8, 24), 'deep-sample': 400}
     jobs, meta = [], []
     for im in images + smp_images:
         ww = im['w'].bit_length() - 1
         for b in im['blocks']:
             pyf = py_spec(b.spec)
-            vals = sample_operands(ctx.rng, b, nsm if b.kind != 'sample' else ctx.n(8, 24))
+            vals = sample_operands(ctx.rng, b, nsamp[b.kind])
             vals += [list(wv) for wv in b.witnesses if list(wv) not in vals]
-            for eng in ('fast', 'native') + (('featured',) if b.kind == 'sample' or ctx.tier == 'thorough' else ()):
-                vv = vals if eng != 'featured' else vals[:2]
+            engines = ('fast', 'native') + (('featured',) if b.kind == 'sample' or (ctx.tier == 'thorough' and b.kind == 'single') else ())
+            for eng in engines:
+                vv = vals if eng == 'native' else vals[:2] if eng == 'featured' else vals[:max(3, len(vals) // 2)]
                 cases, exps = [], []
                 for i, v in enumerate(vv):
                     c, e = engine_case(b, v, ww, pyf, i)
@@ -830,9 +853,9 @@ def run_property(ctx, cfg):
                 engine_fail += 1
                 report_failure(ctx, cfg, b, v, e, None, {k: r.get(k) for k in ('cause', 'ops', 'out', 'out_bits', 'diffs', 'exc')},
                                f'{eng}: {bad}', f'sampled operands on the real {eng} engine')
-            elif eng == 'fast' and b.kind != 'sample':
+            elif eng == 'fast' and b.kind in ('single', 'pair'):
                 tie_samples.setdefault((im['name'], b.bid), []).append((v, e, r['ops']))
-        if b.kind == 'sample':
+        if b.kind in ('sample', 'deep-sample'):
             ctx.hist('sampled_only_blocks', f'{b.title} w={b.w}', len(vv))
     for (im, b, eng, vv, exps), rs in list(zip(meta, results))[:2]:
         ctx.sample({'kind': 'real-engine run', 'block': b.title, 'w': b.w, 'engine': eng, 'operands': vv[0],
